@@ -244,7 +244,11 @@ def run_case(case):
                              'ops': ops_done + [[kind, i, r]]}, 'tags': tags}
         ops_done.append([kind, i, r])
         tags.append('op:' + kind)
-        if upd:
+        if kind == 'kept':
+            # the graph made from kept edges is not used further (it keeps the parent's influence matrix while nodes
+            # without a kept edge are gone): what counts is that its parent and all other graphs are unchanged
+            pass
+        elif upd:
             expected[i] = observe(b, g, conn_ids)
             model_ops.append([True, [i, iid(expected[i])]])
         else:
